@@ -8,7 +8,8 @@ from ..pair import PairExec, compare_pair
 
 KNOBS = [
     ("diff", "noprefix", "true"), ("diff", "mnemonicPrefix", "true"), ("diff", "srcPrefix", "x/"),
-    ("diff", "dstPrefix", "y/"), ("color", "ui", "always"), ("color", "diff", "always"), ("diff", "renames", "copies"),
+    ("diff", "dstPrefix", "y/"), ("color", "ui", "always"), ("color", "diff", "always"), ("diff", "renames", "copies"), ("diff", "renames", "false"), ("diff", "renames", "false"), ("diff", "renames", "true"),
+    ("diff", "renameLimit", "1"),
     ("diff", "algorithm", "histogram"), ("diff", "algorithm", "patience"), ("diff", "algorithm", "minimal"),
     ("diff", "context", "0"), ("diff", "context", "12"), ("diff", "interHunkContext", "6"),
     ("diff", "indentHeuristic", "false"), ("core", "quotePath", "false"), ("core", "pager", "cat"),
@@ -30,7 +31,7 @@ TEXTCONV = "#!/bin/sh\ntr 'a-z' 'A-Z' < \"$1\"\n"
 class C12(C02):
     id = "C12"
     families = ["commits", "partial", "amend", "rebase", "rebase_i", "cherry_pick", "squash_merge", "reset_recommit",
-                "stash", "switch_carry", "renames", "pull", "switch_merge", "reset_pathspec", "stash_pathspec"]
+                "stash", "switch_carry", "renames", "renames", "pull", "switch_merge", "reset_pathspec", "stash_pathspec"]
     quick_runs, thorough_runs = 300, 5000
     quick_budget_s, thorough_budget_s = 170, 1800
     rule = ("one run = one history family executed twice from identical worlds: baseline, and with a drawn subset (1..6) of "
@@ -61,6 +62,8 @@ class C12(C02):
     def header(self, rng, tier, index):
         h = super().header(rng, tier, index)
         knobs = rng.sample(KNOBS, rng.randint(1, 6))
+        if h["cfg"]["families"][0] == "renames" and rng.random() < 0.6 and ("diff", "renames", "false") not in knobs:
+            knobs.append(("diff", "renames", "false"))     # rename detection off vs. the default (on)
         ctx = rng.choice([None, "subdir", "dash_C", "dash_C"])
         env = rng.choice(GIT_ENVS) if rng.random() < 0.4 else {}
         h["variant"] = {"world": {"gitconfig": [list(k) for k in knobs]}, "context": ctx, "git_env": env, "subdir": "src"}
